@@ -683,7 +683,7 @@ func filterRow(f *btpb.RowFilter, r *btpb.Row) (bool, error) {
 				}
 			}
 		}
-		return true, nil
+		return !isEmpty(r), nil
 	case *btpb.RowFilter_Condition_:
 		match, err := filterRow(f.Condition.PredicateFilter, copyRow(r))
 		if err != nil {
@@ -723,7 +723,7 @@ func filterRow(f *btpb.RowFilter, r *btpb.Row) (bool, error) {
 				}
 			}
 		}
-		return true, nil
+		return !isEmpty(r), nil
 	case *btpb.RowFilter_CellsPerRowOffsetFilter:
 		// Skip the first n cells in the row.
 		offset := int(f.CellsPerRowOffsetFilter)
@@ -740,7 +740,7 @@ func filterRow(f *btpb.RowFilter, r *btpb.Row) (bool, error) {
 				col.Cells = col.Cells[:0]
 			}
 		}
-		return true, nil
+		return false, nil
 	case *btpb.RowFilter_RowSampleFilter:
 		// The row sample filter "matches all cells from a row with probability
 		// p, and matches no cells from the row with probability 1-p."
